@@ -187,6 +187,18 @@ theorem genIdeal_isLeftIdealOfNorm {O : Lat p} (hO : IsOrder O) (x : H p) (hx : 
 
 /-! ## (b) generators -/
 
+/-- for `g ∈ I` of norm `n·q` in an ideal of norm `n`: `q·I ⊆ O·g` -/
+theorem smul_mem_mul_gen {O I : Lat p} {n q : ℤ} (hI : IsLeftIdealOfNorm O I n) (hn0 : n ≠ 0)
+    (g : H p) (hg : g ∈ I) (hN : HasNorm g (n * q)) (y : H p) (hy : y ∈ I) :
+    q • y ∈ O * Submodule.span ℤ {g} := by
+  obtain ⟨w, hw, e⟩ := mem_nsmul'.1 (hI.mul_star y hy g hg)
+  have : n • (q • y) = n • (w * g) := by
+    have e2 : y * (star g * g) = (n * q) • y := by
+      rw [hN.star_mul, intCast_eq_zsmul_one, mul_smul_comm, mul_one]
+    rw [smul_smul, ← e2, ← mul_assoc, e, smul_mul_assoc]
+  rw [zsmul_cancel hn0 this]
+  exact Submodule.mem_mul_span_singleton.2 ⟨w, hw, rfl⟩
+
 /-- **a generator generates**: if `g ∈ I` has `N(g) = n·q` with `gcd(q, n) = 1`, where `I` is a left `O`-ideal of
     norm `n ≠ 0`, then `I = O·g + n·O`. -/
 theorem eq_genIdeal_of_generator {O I : Lat p} {n q : ℤ} (hO : IsOrder O) (hI : IsLeftIdealOfNorm O I n) (hn0 : n ≠ 0)
